@@ -3,7 +3,7 @@ import drvlib as D
 import worldlib as W
 from check_world import run_world
 
-OBLIGATIONS = ['Cvise.C08.tmp_clean', 'Cvise.C08.shipped_shape', 'Cvise.C08.old_shape_leaks', 'Cvise.C08.scripts_clean', 'Cvise.C08.shipped_kills',
+OBLIGATIONS = ['Cvise.C08.tmp_clean', 'Cvise.C08.shipped_shape', 'Cvise.C08.old_shape_leaks', 'Cvise.C08.old_setup_order_leaks', 'Cvise.C08.scripts_clean', 'Cvise.C08.shipped_kills',
                'Cvise.C08.old_error_exit_leaves_scripts', 'Cvise.C08.shipped_helpers_tracked']
 
 
